@@ -128,6 +128,7 @@ func runC11(c *Ctx) {
 	rulePackageLoadedPerFile(c, "C11.9")
 	ruleNoCrossFilePositionOrder(c, "C11.11")
 	ruleGenerateOncePerFile(c, "C11.12")
+	rulePreviousOutputsOfEveryFile(c, "C11.13")
 	ruleOutputOpenedLast(c, "C11.10")
 
 	// ---- C11.4 deterministic field order
